@@ -23,7 +23,7 @@ RULE = ("every family {Normal, LogNormal, MultivariateNormal, Uniform, Gumbel, C
 ASSUMPTIONS = [
     "references: closed-form NumPy log-densities (scipy.special.gammaln for Student-t), scipy.stats as second opinion; where the two "
     "references disagree by more than 1e-9 relative the point is excluded and counted",
-    "on the edge of a support both the interior limit and -inf are accepted (measure-zero convention), NaN never",
+    "on the edge of a support both the interior limit and -inf are accepted (rounding of the standardisation decides the side), NaN never; a lower end hit exactly (x == minval, x == 0 for Exponential) must follow the reference convention (in the support)",
     "sampler clause: n=20000, per-coordinate KS distance <= sqrt(ln(2/1e-9)/(2n)) = 0.0231 (DKW); all randomness seeded",
     "density tolerance 1e-9 (1+|ref|) per event in float64",
     "denormal inputs are not used (XLA CPU flushes denormals to zero); the smallest magnitudes next to 0 are +-2.3e-308",
@@ -260,6 +260,15 @@ def run_shard(shard):
             interior = np.where(edge, ref_logpdf(fam, pb, np.where(edge, _interior_point(fam, pb, xs), xs)), per)
             ref_in = interior.sum(axis=axes) if axes else interior
             ok_edge = np.isneginf(lp) | (np.abs(lp - ref_in) <= tol * 10)
+            # ... except on a *lower* edge hit exactly (x == minval, x == 0 for Exponential): the standardised coordinate is exactly
+            # 0 there, no rounding is involved, and the reference convention (scipy: the closed lower end belongs to the support)
+            # decides - minus infinity is a wrong value, not a convention
+            if fam in ("Uniform", "Exponential"):
+                lower_exact = (xs == pb["minval"]) if fam == "Uniform" else (xs == 0)
+                strict_ev = (edge & ~lower_exact).any(axis=axes) if axes else (edge & ~lower_exact)
+                strict_ev = edge_any & ~strict_ev  # every edge coordinate of the event sits exactly on the lower end
+                rec.count("density_points_exactly_on_lower_edge", int(strict_ev.sum()))
+                ok_edge = np.where(strict_ev, np.abs(lp - ref_in) <= tol * 10, ok_edge)
             bad &= ~(edge_any & ok_edge)
         # outside the support the reference is -inf: a finite value is a violation (covered by err=inf)
         closed_vs_scipy_only = bad & ~agree & (np.abs(lp - ref_sp) <= tol)
